@@ -88,6 +88,9 @@ def urwid_frame(exc: BaseException) -> str | None:
     """innermost traceback frame that lies in the urwid package, as 'file:func'."""
     tb = traceback.extract_tb(exc.__traceback__)
     hit = None
+    cause = exc.__cause__ or exc.__context__
+    if cause is not None and cause is not exc:
+        hit = urwid_frame(cause) if not getattr(cause, "_vf_seen", False) else None
     for fr in tb:
         fn = fr.filename.replace("\\", "/")
         if "/urwid/" in fn and "/verif/" not in fn:
@@ -95,8 +98,12 @@ def urwid_frame(exc: BaseException) -> str | None:
     return hit
 
 
-def innermost_is_urwid(exc: BaseException) -> bool:
+def innermost_is_urwid(exc: BaseException, _depth: int = 0) -> bool:
     tb = traceback.extract_tb(exc.__traceback__)
+    # "RuntimeError: generator raised StopIteration" and re-raised errors: look at the cause too
+    cause = exc.__cause__ or exc.__context__
+    if cause is not None and _depth < 4 and innermost_is_urwid(cause, _depth + 1):
+        return True
     if not tb:
         return False
     # walk from the innermost outwards, skipping stdlib / third-party frames
@@ -133,6 +140,7 @@ class Ctx:
         self.exhaustive: dict[str, bool] = {}
         self.notes: list[str] = []
         self.known_active = load_known_ids(prop)
+        self.survey: dict[str, dict] = {}
 
     # ---- seeds / time ------------------------------------------------------------------
     def derive_seed(self, name: str) -> int:
@@ -200,6 +208,16 @@ class Ctx:
             else:
                 raise
         fid = self.match_known(sub, case, v)
+        if fid is None and os.environ.get("VERIF_SURVEY"):
+            # development aid: bucket every unlisted failure by clause, keep the smallest example, go on
+            key = f"{sub}|{v.clause}"
+            size = len(json.dumps(case, default=repr))
+            cur = self.survey.get(key)
+            if cur is None or size < cur["size"]:
+                self.survey[key] = {"size": size, "n": (cur or {"n": 0})["n"] + 1, "case": case, "message": v.message[:600]}
+            else:
+                cur["n"] += 1
+            return True
         if fid is not None:
             self.excluded[fid] = self.excluded.get(fid, 0) + 1
             self.excluded_example.setdefault(fid, {"sub": sub, "case": case, "clause": v.clause})
@@ -321,6 +339,7 @@ class Ctx:
             "inconclusive": self.inconclusive,
             "exhaustive": self.exhaustive,
             "notes": self.notes,
+            "survey": self.survey,
             "wall_s": time.monotonic() - self.t0,
         }
 
@@ -507,6 +526,22 @@ def parent_main(prop, tier, seed, replay=None, shards=None):
             failure is None or len(json.dumps(f["case"])) < len(json.dumps(failure["case"]))
         ):
             failure = f
+    if os.environ.get("VERIF_SURVEY"):
+        survey = {}
+        for r in results:
+            for k, e in r.get("survey", {}).items():
+                cur = survey.get(k)
+                if cur is None:
+                    survey[k] = dict(e)
+                else:
+                    n = cur["n"] + e["n"]
+                    if e["size"] < cur["size"]:
+                        survey[k] = dict(e)
+                    survey[k]["n"] = n
+        with open(os.path.join(ROOT, ".work", f"survey-{prop}.json"), "w") as f:
+            json.dump(survey, f, indent=1, default=repr)
+        for k, e in sorted(survey.items()):
+            print(f"SURVEY {k} x{e['n']}: {e['message'][:300]}\n    case={json.dumps(e['case'], default=repr)[:1200]}")
     if failure is not None:
         h = jhash([failure["sub"], failure["case"]])
         fdir = os.path.join(ROOT, "replays", prop)
